@@ -8,13 +8,13 @@ RE_REJ = re.compile(r'<<\s*"REJECT",\s*(\d+),\s*"(C\d+):([^"]*)",\s*(\d+)\s*>>')
 PROFILES_FOR = {
     "C04": ["soup", "contend", "wait", "mix", "res", "end"],
     "C05": ["soup", "contend", "res", "mix", "end"],
-    "C06": ["soup", "order", "contend", "res", "pool", "buf", "queue", "cond"],
+    "C06": ["soup", "order", "condorder", "contend", "res", "pool", "buf", "queue", "cond"],
     "C07": ["soup", "contend", "pool", "mix", "rec"],
     "C08": ["soup", "contend", "res", "pool", "buf", "queue", "mix", "end"],
     "C09": ["soup", "end", "wait", "mix"],
     "C11": ["soup", "contend", "buf", "mix", "rec"],
     "C12": ["soup", "contend", "queue", "mix", "rec"],
-    "C13": ["soup", "condmany", "cond", "mix"],
+    "C13": ["soup", "condmany", "condorder", "cond", "mix"],
     "C14": ["soup", "rec", "longrec"],
 }
 
